@@ -34,7 +34,7 @@ class Ctx:
         self.workdir = workdir
         self.instances = []
         self.stats = {'functions_analysed': set(), 'paths': 0, 'obligations': 0, 'discharged': 0, 'loops': 0,
-                      'std_summaries': set(), 'unsummarised': set(), 'loop_functions_checked': 0}
+                      'std_summaries': set(), 'unsummarised': set(), 'loop_functions_checked': 0, 'executed': set()}
         self.assumptions = set()
         self.executed = set()
         self.samples = []
@@ -59,6 +59,7 @@ class Ctx:
         self.stats['functions_analysed'].add(fnpath)
         self.executed |= set(getattr(ip, 'executed_fns', ()))
         self.executed.add(fnpath)
+        self.stats['executed'] |= set(getattr(ip, 'executed_fns', ())) | {fnpath}
         self.stats['paths'] += ip.paths
         self.stats['loops'] += len(ip.loop_info)
         self.stats['std_summaries'] |= set(ip.summaries_used)
